@@ -150,6 +150,13 @@ pub async fn run(cx: &mut Ctx) {
                 let out = db.exec(&sql).await;
                 quiesce().await;
                 cx.log.push(format!("    => {}", out.brief()));
+                if std::env::var_os("RLSIM_DEBUG_ROWS").is_some() {
+                    use std::hash::{BuildHasher, Hasher};
+                    let rs = std::collections::hash_map::RandomState::new();
+                    let mut h = rs.build_hasher();
+                    h.write_u64(42);
+                    cx.log.push(format!("       k0-fingerprint {:016x}", h.finish()));
+                }
                 cx.log.absorb_journal();
                 if let Outcome::Panic(m) = &out {
                     cx.probe("statement-panicked");
